@@ -231,7 +231,7 @@ def r5_stale_shape(ctx):
                 uses = [x for x in ast.walk(fi.node) if isinstance(x, ast.Name) and x.id == var and isinstance(x.ctx, ast.Load) and ravels and x.lineno >= min(r.lineno for r in ravels)]
                 ctx.ob(f"{fi.module.relpath}:{line} {fi.qualname}", f"the shape of `{obj}` is not captured before `{obj}.ravel()` and used after it (ravel() of a ragged view replaces the shape; "
                        f"the captured one no longer matches the flattened data)", not (ravels and uses), f"{var} = {obj}._shape at line {line}, {obj}.ravel() at line {ravels[0].lineno if ravels else '-'}",
-                       key=f"C07-R5|{mod}|{fi.qualname}|{obj}")
+                       key=f"C07-R5|{mod}|{fi.qualname}|{obj}", definite=True)
     ctx.floor("functions scanned for the stale-shape idiom", n, 40)
     ctx.ob("bionumpy", f"{n} functions scanned: no ragged shape is captured before a ravel() of the same object and used after it", True, "")
 
